@@ -296,6 +296,11 @@ func init() {
 					second = "Bearer " + c.Token
 					hdr = append(hdr, [2]string{"Authorization", second}) // a second Authorization line: only the first counts
 				}
+				if rq.method == "OPTIONS" && i%2 == 0 {
+					// dressed as a browser's CORS preflight: no exemption from the token for that
+					hdr = append(hdr, [2]string{"Origin", "https://console.example"}, [2]string{"Access-Control-Request-Method", "POST"}, [2]string{"Access-Control-Request-Headers", "authorization"})
+					o.Obs("preflight_shaped_requests", 1)
+				}
 				dec := 1
 				if filtered {
 					dec = pol.decide(peer, len(c.Allow))
